@@ -12,12 +12,15 @@ class KeyIdPrefix(PipelineBase):
     name='C14.keyid_prefix'
     def __init__(self,**kw):
         PipelineBase.__init__(self,**kw)
-        self.bounds={'signature_key_id':'64 bytes: 6 fixed hex digits, 4 free bytes forming valid UTF-8 (so multi-byte characters straddle byte 8), 54 fixed hex digits','pipeline':'1 step, the link file is found by the directory scan and handed to match_signatures'}
+        self.bounds={'signature_key_id':'64 bytes: 6 fixed hex digits, 4 free bytes forming valid UTF-8 (so multi-byte characters straddle byte 8), 54 fixed hex digits; also hex ids of 3, 7, 8, 9, 63 and 65 bytes; the link file is a JSON document that passes through the crate\'s Metablock decoder (Deserializer model) before it is used','pipeline':'1 step, the link file is found by the directory scan and handed to match_signatures'}
         self.witnesses=['ascii_id_ok','nonascii_id_seen']
     def mk_args(self,run):
         F0,OWN=0,1
         free=[z3.BitVec('kid_%d'%i,8) for i in range(4)]
         kid=list(pool_keyid(F0)[:6].encode())+free+list(pool_keyid(F0)[10:].encode())
+        # other lengths (a key id in a file is just a JSON string): they reach verification only if the decoder lets them through
+        ln=[64,3,7,8,9,63,65][run.pick(7,'kidlen')]
+        if ln!=64: kid=list((pool_keyid(F0)*2)[:ln].encode()); free=[]
         from mirsym.models import utf8_valid
         okv,_=utf8_valid(run,kid)
         if not okv: raise Infeasible()
@@ -30,6 +33,9 @@ class KeyIdPrefix(PipelineBase):
         blk=run.ghost['dirs'][self.link_dir][fd.fname()]
         sig=deref(self.b.get(blk,'signatures')).items[0]
         self.b.set(sig,'key_id',Agg('KeyId',[StringO(kid)]))
+        # the link file goes through the crate's decoder: serialise the block (Serializer model) and let load_linkfile decode the document
+        from mirsym import models_serde as ms
+        run.ghost['dirs'][self.link_dir][fd.fname()]=('json',ms.ser_value(self.eng,run,blk))
         return args,{'lb':lb,'caller':caller,'dirs':dirs,'kid':kid,'free':free}
     def check(self,run,out,g):
         oc=outcome_of(out); rec=self.new_rec(oc)
@@ -40,8 +46,9 @@ class KeyIdPrefix(PipelineBase):
         if oc=='panic':
             r,m=run.check_sat(z3.BoolVal(True))
             rec['viol']={'kind':'panic_keyid_prefix','known_key':None,'scenario':scn(m),'predicted':'panic','what':'in_toto_verify panics on a link file whose signature key id has a multi-byte character across byte 8: '+str(out[1])}; return rec
-        self.wit(run,rec,'ascii_id_ok',z3.And(*[z3.ULT(x,0x80) for x in g['free']]))
-        self.wit(run,rec,'nonascii_id_seen',z3.Or(*[z3.UGE(x,0x80) for x in g['free']]))
+        if g['free']:
+            self.wit(run,rec,'ascii_id_ok',z3.And(*[z3.ULT(x,0x80) for x in g['free']]))
+            self.wit(run,rec,'nonascii_id_seen',z3.Or(*[z3.UGE(x,0x80) for x in g['free']]))
         if is_sample(run,self.seed,4):
             r,m=run.check_sat(z3.BoolVal(True))
             if r==z3.sat: rec['sample']={'scenario':scn(m),'expect':'ok' if oc=='ok' else 'err'}
